@@ -232,6 +232,30 @@ func (p *c04) Gen(seed uint64, i int, tier string) (any, bool) {
 	}
 	sc.Sched = sim.Derive(seed, 4, 998, uint64(idx))
 	sc.Label += "/random"
+	if sc.Op == "dialandsend" && r.Chance(1, 5) {
+		// the Client is used for a second DialAndSend, and the peer it reaches then advertises
+		// other capabilities than the first one did: what was learnt on the first connection
+		// says nothing about the second
+		sc.Op = "dialandsend2"
+		sc.Batches = append(sc.Batches, []MsgSpec{SimpleMsg("again", "z@dest.example")})
+		second := sc.Server
+		second.Rules = nil
+		var caps []string
+		for _, c := range []string{"8BITMIME", "SMTPUTF8", "DSN", "ENHANCEDSTATUSCODES"} {
+			if r.Chance(1, 2) {
+				caps = append(caps, c)
+			}
+		}
+		if r.Chance(1, 3) {
+			caps = append(caps, authCaps("PLAIN", "LOGIN"))
+		}
+		second.Caps, second.UseCapsTLS, second.CapsTLS = caps, false, nil
+		if sc.Client.TLSPolicy == "mandatory" {
+			second.Caps = append(second.Caps, "STARTTLS")
+		}
+		sc.Second = &second
+		sc.Label += "/second-peer-differs"
+	}
 	return sc, true
 }
 
@@ -288,6 +312,19 @@ func (p *c04) Exec(t *testing.T, scAny any) Outcome {
 			}
 			out.violate("C04:illegal:"+tag, "the reference server observed %q in state %s on line %q (script %s)", e.Obs, e.State, e.Line, scriptSig(sc.Server.Rules))
 		}
+	}
+	for _, later := range run.Env.Later {
+		// the second connection reaches another peer: its observations count as well
+		for _, e := range later.H.Events {
+			if e.Kind == "obs" && e.Obs != "auth-cancel-after-final-reply" {
+				tag := e.Obs
+				if i := strings.Index(tag, ":"); i >= 0 && strings.HasPrefix(tag, "syntax") {
+					tag = "syntax"
+				}
+				out.violate("C04:illegal:"+tag+":second-connection", "on the second connection of the Client the reference server observed %q in state %s on line %q", e.Obs, e.State, e.Line)
+			}
+		}
+		out.stat("probe.second-connection-to-another-peer", 1)
 	}
 	// 8bit messages must be refused locally when 8BITMIME is not in the latest EHLO reply
 	encOfTok := map[string]string{}
